@@ -91,6 +91,13 @@ class RangeAdapt(Opaque):
         self.rng, self.kind, self.clo, self.steps = rng, kind, clo, 0
 
 
+class PeekIter(Opaque):
+    """Iterator::peekable() over a map iterator model: one item of look-ahead"""
+    def __init__(self, cell):
+        self.cell = cell          # Cell holding the underlying MapIter
+        self.peeked = None        # None = nothing looked at yet; else a Cell holding the Option<Item> that next() will hand out
+
+
 class ListFilter(Opaque):
     """slice / Vec iterator behind .filter(f): consumed by min / max / count / last"""
     def __init__(self, it, clo):
@@ -604,6 +611,14 @@ def common_summaries():
 
     @reg(r'<std::collections::hash_map::(Drain|Iter|Values|ValuesMut|Keys)<.*> as Iterator>::next$')
     def map_next(ex, st, fn, argv):
+        p0 = deref(ex, st, argv[0])
+        if isinstance(p0, PeekIter):
+            # (the pattern above also matches Peekable<hash_map::Iter<..>>)
+            if p0.peeked is not None:
+                o = p0.peeked.value
+                p0.peeked = None if o.disc == 1 else p0.peeked     # a peeked None stays None (map iterators are fused)
+                return [(st, o)]
+            return map_next(ex, st, fn, [Ref(p0.cell)])
         outs = []
         pending = [(st, argv)]
         while pending:
@@ -654,6 +669,41 @@ def common_summaries():
                 ex.drop_fields(s, c[2])     # an item the predicate rejects is dropped by find (it was moved out of the iterator)
                 outs += map_find(ex, s, '__verif::map_find', [c[0], c[1]])
         return outs
+
+    @reg(r'<std::collections::hash_map::(Drain|Iter|Values|ValuesMut|Keys)<.*> as Iterator>::peekable$')
+    def map_peekable(ex, st, fn, argv):
+        it = argv[0] if isinstance(argv[0], MapIter) else deref(ex, st, argv[0])
+        return [(st, PeekIter(Cell(it, 'peekable.inner')))]
+
+    @reg(r'^(std::iter::)?Peekable::<.*>::peek$')
+    def peek_peek(ex, st, fn, argv):
+        p = deref(ex, st, argv[0])
+        if not isinstance(p, PeekIter):
+            return NotImplemented
+        outs = []
+        if p.peeked is None:
+            for (s, o) in map_next(ex, st, fn, [Ref(p.cell)]):
+                p2 = deref(ex, s, argv[0])
+                p2.peeked = Cell(o, 'peeked')
+                outs.append(s)
+        else:
+            outs.append(st)
+        res = []
+        for s in outs:
+            o = deref(ex, s, argv[0]).peeked
+            res.append((s, mk_option(Ref(Cell(o.value.payloads[1].fields[0], 'peeked.item'))) if o.value.disc == 1 else mk_option()))
+        return res
+
+    @reg(r'^<(std::iter::)?Peekable<.*> as Iterator>::next$')
+    def peek_next(ex, st, fn, argv):
+        p = deref(ex, st, argv[0])
+        if not isinstance(p, PeekIter):
+            return NotImplemented
+        if p.peeked is not None:
+            o = p.peeked.value
+            p.peeked = None if o.disc == 1 else p.peeked     # a peeked None stays None (fused map iterators)
+            return [(st, o)]
+        return map_next(ex, st, fn, [Ref(p.cell)])
 
     # ---------------- Option / Result plumbing
     @reg(r'^Option::<.*>::take$')
